@@ -222,6 +222,10 @@ impl Memfs {
 
         // Skip creation of root as `new` will take care of that
         if path == PathBuf::from(Component::RootDir.to_string()?) {
+            // The root is a directory and can't be replaced by a file
+            if entry.is_file() {
+                return Err(PathError::is_not_file(&path).into());
+            }
             return Ok(path);
         }
 
